@@ -340,6 +340,10 @@ type Solo struct {
 	rules map[string]*ast.RuleEntry
 }
 
+// FreshNodes makes Solo.Truth read the facts through value nodes of its own instead of sharing the nodes of the
+// data context under test.
+var FreshNodes = true
+
 // NewSolo builds each named rule text alone.
 func NewSolo(texts map[string]string) (*Solo, error) {
 	s := &Solo{kbs: map[string]*ast.KnowledgeBase{}, rules: map[string]*ast.RuleEntry{}}
@@ -375,6 +379,25 @@ func (s *Solo) Truth(name string, live *facts.State, real ast.IDataContext) (tru
 	for k, v := range rdc.ObjectStore {
 		if k == "DEFUNC" {
 			continue
+		}
+		if FreshNodes {
+			// a value node of its own over the same data: whatever the node under test remembers about the
+			// objects below it (child nodes, reflected values) cannot leak into the expectation
+			if f, isGo := live.Go[k]; isGo && f != nil {
+				if err := shadow.Add(k, f); err == nil {
+					continue
+				}
+			} else if _, isJSON := live.JSON[k]; isJSON {
+				if val := v.Value(); val.IsValid() && val.CanInterface() {
+					if err := shadow.AddJSON(k, facts.MarshalJSONDoc(val.Interface())); err == nil {
+						continue
+					}
+				}
+			} else if val := v.Value(); val.IsValid() && val.CanInterface() {
+				if err := shadow.Add(k, val.Interface()); err == nil {
+					continue
+				}
+			}
 		}
 		shadow.ObjectStore[k] = v
 	}
